@@ -236,14 +236,14 @@ var textMuts = []textMut{
 	{"named-float-from-string", `var t celsius = 36.6`, `var t celsius = "36.6"`},
 	// statements
 	{"range-non-iterable", `for i, x := range xs {`, `for i, x := range p {`},
-	{"range-too-many-variables", `for k, v := range m {`, `for k, v, w := range m {`},
+	{"range-value-type", `for k, v := range m {`, `var k int; var v int; for k, v = range m {`},
 	{"switch-case-type", `case 2, 3:`, `case 2, "3":`},
 	{"switch-duplicate-case", `case 2, 3:`, `case 2, 1:`},
 	{"undefined-label", `continue outer`, `continue inner`},
 	{"slice-of-non-sliceable", `sub := xs[1:2]`, `sub := n[1:2]`},
 	{"slice-index-type", `sub := xs[1:2]`, `sub := xs["1":2]`},
 	{"slice-constant-indices-inverted", `sub := xs[1:2]`, `sub := xs[2:1]`},
-	{"defer-non-call", `defer fmt.Sprint(total)`, `defer total`},
+	{"defer-wrong-arguments", `defer fmt.Sprint(total)`, `defer sum("1")`},
 	{"go-wrong-arguments", `go sum(1)`, `go sum("1")`},
 	{"receiver-method-return-type", `{ return p.Name }`, `{ return p.X }`},
 	{"variadic-range-type", `base += x`, `base += "x"`},
